@@ -196,7 +196,9 @@ fn judge(xot: &Xot, node: Node, q: &Q, cdata: &[xot::NameId], text: &str) -> Vec
     let mut open_names: Vec<String> = vec![];
     // one source text node against the run of written text segments
     let text_node = |n: Node, t: &str, evs: &Vec<Ev>, k: &mut usize, bad: &mut Vec<(String, String)>| {
-        let parent = xot.parent(n).and_then(|p| xot.element(p).map(|e| e.name()));
+        // the parent of the node that is serialized is not part of the output: a text node written on its own is escaped as
+        // HTML text whatever element it sits in in the tree
+        let parent = if n == node { None } else { xot.parent(n).and_then(|p| xot.element(p).map(|e| e.name())) };
         let (pl, pu) = match parent { Some(pn) => { let (l, u) = xot.name_ns_str(pn); (l.to_string(), u.to_string()) } None => (String::new(), "-".to_string()) };
         let raw_parent = parent.is_some() && is_html_ns(&pu) && raw_text_element(&pl);
         let cdata_parent = parent.map(|pn| cdata.contains(&pn)).unwrap_or(false);
